@@ -330,7 +330,7 @@ def main(tier, seed):
             for target in ("python", "fortran"):
                 sets.append((target, [a, b]))
                 sets.append((target, [b, a]))
-    nrand = 2000 if tier == "quick" else 20000
+    nrand = 2000 if tier == "quick" else 300000
     for _ in range(nrand):
         s = rng.sample(names, rng.choice([2, 3, 3, 4]))
         sets.append((rng.choice(["python", "fortran"]), s))
